@@ -326,17 +326,63 @@ impl Deserializable for ProofOptions {
     /// # Errors
     /// Returns an error of a valid proof options could not be read from the specified `source`.
     fn read_from<R: ByteReader>(source: &mut R) -> Result<Self, DeserializationError> {
+        let num_queries = source.read_u8()? as usize;
+        let blowup_factor = source.read_u8()? as usize;
+        let grinding_factor = source.read_u8()? as u32;
+        let field_extension = FieldExtension::read_from(source)?;
+        let fri_folding_factor = source.read_u8()? as usize;
+        let fri_remainder_max_degree = source.read_u8()? as usize;
+        let batching_constraints = BatchingMethod::read_from(source)?;
+        let batching_deep = BatchingMethod::read_from(source)?;
+        let num_partitions = source.read_u8()? as usize;
+        let hash_rate = source.read_u8()? as usize;
+
+        // the constructors below panic on invalid values; since the values being read are
+        // untrusted, make sure they are valid first
+        let invalid = |what: &str, value: usize| {
+            Err(DeserializationError::InvalidValue(format!("invalid {what}: {value}")))
+        };
+        if num_queries == 0 || num_queries > MAX_NUM_QUERIES {
+            return invalid("number of queries", num_queries);
+        }
+        if !blowup_factor.is_power_of_two()
+            || blowup_factor < MIN_BLOWUP_FACTOR
+            || blowup_factor > MAX_BLOWUP_FACTOR
+        {
+            return invalid("blowup factor", blowup_factor);
+        }
+        if grinding_factor > MAX_GRINDING_FACTOR {
+            return invalid("grinding factor", grinding_factor as usize);
+        }
+        if !fri_folding_factor.is_power_of_two()
+            || fri_folding_factor < FRI_MIN_FOLDING_FACTOR
+            || fri_folding_factor > FRI_MAX_FOLDING_FACTOR
+        {
+            return invalid("FRI folding factor", fri_folding_factor);
+        }
+        if !(fri_remainder_max_degree + 1).is_power_of_two()
+            || fri_remainder_max_degree > FRI_MAX_REMAINDER_DEGREE
+        {
+            return invalid("FRI remainder degree", fri_remainder_max_degree);
+        }
+        if num_partitions == 0 || num_partitions > 16 {
+            return invalid("number of partitions", num_partitions);
+        }
+        if hash_rate == 0 || hash_rate > 256 {
+            return invalid("hash rate", hash_rate);
+        }
+
         let result = ProofOptions::new(
-            source.read_u8()? as usize,
-            source.read_u8()? as usize,
-            source.read_u8()? as u32,
-            FieldExtension::read_from(source)?,
-            source.read_u8()? as usize,
-            source.read_u8()? as usize,
-            BatchingMethod::read_from(source)?,
-            BatchingMethod::read_from(source)?,
+            num_queries,
+            blowup_factor,
+            grinding_factor,
+            field_extension,
+            fri_folding_factor,
+            fri_remainder_max_degree,
+            batching_constraints,
+            batching_deep,
         );
-        Ok(result.with_partitions(source.read_u8()? as usize, source.read_u8()? as usize))
+        Ok(result.with_partitions(num_partitions, hash_rate))
     }
 }
 
